@@ -2,8 +2,72 @@
 import json
 import os
 
+from .. import expr as X
+from .. import facts as F
 from .. import rules as R
 from ..core import VERIF
+
+ABS = ("abs", "unsigned_abs", "wrapping_abs", "saturating_abs", "checked_abs", "abs_diff")
+
+
+def param_uses(ex, idx, under_abs=False, out=None):
+    """occurrences of parameter `idx` in an origin expression: list of booleans `only seen through |x|`"""
+    out = out if out is not None else []
+    if not isinstance(ex, tuple) or not ex:
+        return out
+    if ex[0] == "param" and ex[1] == idx:
+        out.append(under_abs)
+        return out
+    ua = under_abs or (ex[0] == "call" and X.last_seg(ex[1]) in ABS)
+    for x in ex[1:]:
+        if isinstance(x, tuple):
+            if x and isinstance(x[0], str):
+                param_uses(x, idx, ua, out)
+            else:
+                for y in x:
+                    if isinstance(y, tuple):
+                        if y and isinstance(y[0], str):
+                            param_uses(y, idx, ua, out)
+                        else:
+                            for z in y:
+                                if isinstance(z, tuple):
+                                    param_uses(z, idx, ua, out)
+    return out
+
+
+def r3(ctx):
+    rule = "C02.R3"
+    ctx.rule(rule, "X.691 11.8 / 10.4 minimal two's complement: the octet count written by write_unconstrained_whole_number depends on "
+                   "the value itself and not only on its magnitude |value| (-128 needs one octet, +128 two: no function of |value| "
+                   "alone gives the minimal length)")
+    P = ctx.program()
+    bs = [b for b in P.find("asn1rs", "::write_unconstrained_whole_number") if b.def_kind == "AssocFn"]
+    if len(bs) != 1:
+        ctx.fail(rule, "anchor-lost:write_unconstrained_whole_number", "matched %d bodies" % len(bs))
+        return
+    b = bs[0]
+    O = X.Origins(b, P)
+    pn = b.param_names()
+    vidx = [i for i, n in pn.items() if n == "value"]
+    lds = [cs for cs in b.calls() if cs.name == "write_length_determinant"]
+    if not vidx or not lds:
+        ctx.fail(rule, "anchor-lost:length-of-11.8", "parameter `value` or the write_length_determinant call is gone", "%s:%d" % (b.file, b.line))
+        return
+    for cs in lds:
+        a = O.call_args(cs)
+        ex = a[3] if len(a) > 3 else ("unknown", "")
+        uses = param_uses(ex, vidx[0])
+        detail = {"function": b.path, "octet_count": F.rd(R.positional(ex))[:240], "uses_of_value": len(uses),
+                  "uses_only_through_abs": sum(1 for u in uses if u)}
+        if not uses:
+            ctx.fail(rule, "11.8#length-independent-of-value", "the octet count `%s` does not depend on the value: the encoding is not "
+                                                                "minimal" % detail["octet_count"][:80], cs.loc(), detail)
+        elif all(uses):
+            ctx.fail(rule, "11.8#length-from-magnitude-only", "the octet count is computed from |value| only (`%s`): negative powers of two "
+                                                               "such as -128 get one octet too many (X.691 10.4 requires the minimal "
+                                                               "two's complement form)" % detail["octet_count"][:100], cs.loc(), detail)
+        else:
+            ctx.ok(rule, "11.8#length-sign-sensitive", detail)
 
 
 def run(ctx):
@@ -14,3 +78,4 @@ def run(ctx):
         table = json.load(fh)
     n = R.check_table(ctx, "C02.R1", "C02.R2", table)
     ctx.floor("C02.R1", n, "C02.R1.entries")
+    r3(ctx)
